@@ -11,7 +11,7 @@ import traceback
 from . import kernel as sk
 from . import runtime as rt
 
-DEFAULT_MODEL = dict(cpu=2, psutil=True, pipe_cap=sk.PIPE_CAP)
+DEFAULT_MODEL = dict(cpu=2, psutil=True, pipe_cap=sk.PIPE_CAP, boot=0.02)
 
 
 class Obs:
@@ -266,6 +266,6 @@ def digest_of(res):
     h.update(repr([(e.get("op"), e.get("phase"), e.get("thread"), e.get("i"), round(e["now"], 9),
                     e.get("r")) for e in res.obs.events]).encode())
     h.update(repr([(t.tid, t.role, t.proc.pid, t.nops) for t in res.sched.tasks]).encode())
-    h.update(repr(sorted((d["task"], d["pid"], round(d["t0"], 9)) for d in res.obs.exec_log)).encode())
+    h.update(repr(sorted((repr(d["task"]), d["pid"], round(d["t0"], 9)) for d in res.obs.exec_log)).encode())
     h.update(repr((res.sched.steps, round(res.sched.now, 9))).encode())
     return h.hexdigest()[:20]
